@@ -20,7 +20,9 @@ def run_one(pid, patch, tier, suite=False):
         p = subprocess.run(["patch", "-p1", "-s", "-i", os.path.abspath(patch)], cwd=d, capture_output=True, text=True)
         if p.returncode != 0:
             return {"patch": patch, "status": "patch-failed", "out": p.stdout + p.stderr}
-        env = dict(os.environ, VERIF_REPO=d)
+        outdir = os.path.join(VERIF, "out", "mut", pid, os.path.basename(os.path.dirname(patch)) if patch.endswith("patch.diff") else os.path.basename(patch)[:-5])
+        shutil.rmtree(outdir, ignore_errors=True)
+        env = dict(os.environ, VERIF_REPO=d, VERIF_OUT=outdir)
         t0 = time.time()
         r = subprocess.run([os.path.join(VERIF, "check"), pid, "--tier", tier], env=env, capture_output=True, text=True)
         out = r.stdout + r.stderr
@@ -53,8 +55,6 @@ def main():
             print(json.dumps(r), flush=True)
     missed = [r for r in results if r["status"] != "caught"]
     print("summary: %d patches, %d caught, %d not caught" % (len(results), len(results) - len(missed), len(missed)))
-    # found replays of mutant runs are scratch output
-    shutil.rmtree(os.path.join(VERIF, "out", "replays"), ignore_errors=True)
     return 1 if missed else 0
 
 
